@@ -43,7 +43,7 @@ var modPaths = []modPool{
 var modLocalDirs = []string{"../local", "./sub/mod", "../my mod"} // the last one needs quoting
 var modGodebugKeys = []string{"panicnil", "http2client", "x509sha1"}
 var modTools = []string{"example.com/a/cmd/t", "golang.org/x/tools/cmd/stringer", "example.com/b/tool"}
-var modGoVersions = []string{"1.19", "1.20", "1.21", "1.22.1", "1.23"}
+var modGoVersions = []string{"1.19", "1.20", "1.21", "1.22.1", "1.23", "1.9", "1.5", "1.21rc1", "1.100"}
 var modToolchains = []string{"go1.21.0", "go1.22.1", "go1.23.4"}
 var modOwnVersions = []string{"v1.0.0", "v1.1.0", "v1.2.0", "v1.3.0-rc.1", "v1.9.9"}
 var modRationales = []string{"", "bad release", "security: CVE-1\nuse v1.2.4 instead"}
@@ -717,6 +717,7 @@ type genLine struct {
 	lead    int    // number of leading comment lines
 	indirect bool
 	blank   bool // a blank line before
+	spacing int  // selects how the end-of-line comment is spelled
 }
 
 func quoteIfNeeded(s string) string {
@@ -778,7 +779,7 @@ func genModText(src *choice.Src, work, bare bool) (string, *mModel) {
 		}
 		var lines []genLine
 		for i := 0; i < nlines; i++ {
-			gl := genLine{id: next(), kind: kind, lead: src.Weighted(3, 2, 1), blank: src.Bool(1, 4)}
+			gl := genLine{id: next(), kind: kind, lead: src.Weighted(3, 2, 1), blank: src.Bool(1, 4), spacing: src.Intn(70)}
 			e := mEntry{kind: kind, id: gl.id, lead: gl.lead}
 			if bare && kind == "require" {
 				e.id, e.lead = 0, 0 // no comments to recognise the line by
@@ -849,12 +850,15 @@ func genModText(src *choice.Src, work, bare bool) (string, *mModel) {
 			}
 			suffix := fmt.Sprintf(" // S%d", gl.id)
 			if gl.indirect {
-				suffix = fmt.Sprintf(" // indirect; S%d", gl.id)
+				// the marker is recognised with any spacing after the slashes
+				suffix = fmt.Sprintf(" %s S%d", []string{"// indirect;", "// indirect;", "//indirect;", "//  indirect;", "//\tindirect;"}[gl.spacing%5], gl.id)
 			}
 			if noComments {
 				suffix = ""
 				if gl.indirect {
-					suffix = " // indirect"
+					suffix = []string{" // indirect", " //indirect", " //  indirect"}[gl.spacing%3]
+				} else if gl.spacing%7 == 6 {
+					suffix = []string{" //", " //   ", " //\t"}[gl.spacing/7%3] // an empty end-of-line comment
 				}
 			}
 			fmt.Fprintf(&b, "%s%s%s%s\n", indent, verb, gl.tokens, suffix)
@@ -916,7 +920,8 @@ func tokenLess(a, b []string) bool {
 
 // checkBlockOrder verifies that every block of syn is in its documented order.
 func checkBlockOrder(syn *modfile.FileSyntax, goV string) string {
-	semverExclude := goV != "" && ref.SemverCompare("v"+goV, "v1.21") >= 0
+	goVUnclear := strings.ContainsAny(goV, "abcdefghijklmnopqrstuvwxyz")
+	semverExclude := goV != "" && !goVUnclear && ref.SemverCompare("v"+goV, "v1.21") >= 0
 	for _, st := range syn.Stmt {
 		blk, ok := st.(*modfile.LineBlock)
 		if !ok {
@@ -942,6 +947,12 @@ func checkBlockOrder(syn *modfile.FileSyntax, goV string) string {
 				if c := ref.SemverCompare(xl, yl); c < 0 || c == 0 && ref.SemverCompare(xh, yh) < 0 {
 					bad = true
 				}
+			case blk.Token[0] == "exclude" && goVUnclear:
+				// a release candidate of 1.21 ("1.21rc1"): the documentation does not say on which side of
+				// "from go 1.21" it falls; either order is accepted
+				lexOK := !tokenLess(y, x)
+				semOK := len(x) == 2 && len(y) == 2 && !(x[0] > y[0] || x[0] == y[0] && ref.SemverCompare(x[1], y[1]) > 0)
+				bad = !lexOK && !semOK
 			case blk.Token[0] == "exclude" && semverExclude && len(x) == 2 && len(y) == 2:
 				if x[0] > y[0] || x[0] == y[0] && ref.SemverCompare(x[1], y[1]) > 0 {
 					bad = true
